@@ -25,9 +25,12 @@ func (gc GeometryCollection) Len() int {
 // Points returns an iterator for the points in the receiver.
 func (gc GeometryCollection) Points() func() Point {
 	var i, j int
-	p := gc[0].Points()
+	var p func() Point
 	return func() Point {
-		if i == gc[j].Len() {
+		if p == nil {
+			p = gc[0].Points()
+		}
+		for i == gc[j].Len() {
 			j++
 			i = 0
 			p = gc[j].Points()
